@@ -1,0 +1,94 @@
+//! Verification hooks (only built with the `verif-hooks` feature).
+//!
+//! Nothing in here changes the behaviour of the library: it exposes the
+//! lexer so that an external harness can check the token partition, and a
+//! thread-local loop counter ("tick") that lets a harness bound the number of
+//! parser loop iterations and record which (loop site, current token kind)
+//! pairs were reached.
+
+pub use crate::lex::SyntaxKind;
+use std::cell::{Cell, RefCell};
+
+/// Tokenise a complete document (lexer starts at the beginning of a line).
+pub fn lex(input: &str) -> Vec<(SyntaxKind, String)> {
+    crate::lex::lex(input)
+        .map(|(k, t)| (k, t.to_string()))
+        .collect()
+}
+
+/// Tokenise the value part of a field (lexer starts after the colon).
+pub fn lex_inline(input: &str) -> Vec<(SyntaxKind, String)> {
+    crate::lex::lex_inline(input)
+        .map(|(k, t)| (k, t.to_string()))
+        .collect()
+}
+
+/// Number of distinct loop sites that can be recorded.
+pub const MAX_SITES: usize = 64;
+/// Number of distinct "current token" codes that can be recorded per site.
+pub const MAX_CUR: usize = 40;
+/// Code used for "no current token" (end of input).
+pub const CUR_NONE: u16 = (MAX_CUR - 1) as u16;
+
+/// Panic payload prefix used when the armed budget is exceeded.
+pub const BUDGET_PANIC: &str = "verif-hooks: loop budget exceeded";
+
+thread_local! {
+    static TICKS: Cell<u64> = const { Cell::new(0) };
+    static BUDGET: Cell<u64> = const { Cell::new(u64::MAX) };
+    static COVER: RefCell<[u64; MAX_SITES]> = const { RefCell::new([0u64; MAX_SITES]) };
+}
+
+/// Arm the loop budget for the current thread and reset the tick counter.
+pub fn arm(budget: u64) {
+    TICKS.with(|t| t.set(0));
+    BUDGET.with(|b| b.set(budget));
+}
+
+/// Disarm the loop budget for the current thread.
+pub fn disarm() {
+    BUDGET.with(|b| b.set(u64::MAX));
+}
+
+/// Number of ticks since the last `arm`.
+pub fn ticks() -> u64 {
+    TICKS.with(|t| t.get())
+}
+
+/// Coverage bitmap: for every site, the set of current-token codes seen.
+pub fn coverage() -> [u64; MAX_SITES] {
+    COVER.with(|c| *c.borrow())
+}
+
+/// Clear the coverage bitmap of the current thread.
+pub fn reset_coverage() {
+    COVER.with(|c| *c.borrow_mut() = [0u64; MAX_SITES]);
+}
+
+/// Record one loop iteration at `site` with current token code `cur`.
+///
+/// Panics (with a message starting with [`BUDGET_PANIC`]) when more
+/// iterations than the armed budget have been executed.
+pub fn tick(site: u16, cur: u16) {
+    COVER.with(|c| {
+        let mut c = c.borrow_mut();
+        c[(site as usize) % MAX_SITES] |= 1u64 << ((cur as usize) % MAX_CUR);
+    });
+    let n = TICKS.with(|t| {
+        let n = t.get() + 1;
+        t.set(n);
+        n
+    });
+    if n > BUDGET.with(|b| b.get()) {
+        BUDGET.with(|b| b.set(u64::MAX));
+        panic!("{} at site {}", BUDGET_PANIC, site);
+    }
+}
+
+/// Helper: code of an optional deb822 token kind.
+pub fn cur_code(k: Option<SyntaxKind>) -> u16 {
+    match k {
+        Some(k) => k as u16,
+        None => CUR_NONE,
+    }
+}
